@@ -75,19 +75,26 @@ def run(tier, seed, rng):
             if hb:
                 m.bias.copy_(torch.randint(-3, 4, m.bias.shape, generator=gen).double())
         helper = Conv2dModuleHelper(m)
-        patches = helper._extract_patches(x.clone())
-        got = {}
-        m.register_full_backward_hook(lambda mod, gi, go, got=got: got.__setitem__('go', go[0].detach().clone()))
-        xin = x.clone().requires_grad_(True)
-        out = m(xin)
-        wts = torch.randint(-3, 4, out.shape, generator=gen).double()
-        (out * wts).sum().backward()
-        gm = helper.get_grad().detach().clone()
-        a_f = helper.get_a_factor(x.clone()); g_f = helper.get_g_factor(got['go'].clone())
-        # position revealing set/get round trip
-        M = torch.arange(gm.numel(), dtype=torch.float64).reshape(gm.shape) + 1
-        helper.set_grad(M.clone())
-        back = helper.get_grad().detach().clone()
+        try:
+            patches = helper._extract_patches(x.clone())
+            got = {}
+            m.register_full_backward_hook(lambda mod, gi, go, got=got: got.__setitem__('go', go[0].detach().clone()))
+            xin = x.clone().requires_grad_(True)
+            out = m(xin)
+            wts = torch.randint(-3, 4, out.shape, generator=gen).double()
+            (out * wts).sum().backward()
+            gm = helper.get_grad().detach().clone()
+            a_f = helper.get_a_factor(x.clone()); g_f = helper.get_g_factor(got['go'].clone())
+            # position revealing set/get round trip
+            M = torch.arange(gm.numel(), dtype=torch.float64).reshape(gm.shape) + 1
+            helper.set_grad(M.clone())
+            back = helper.get_grad().detach().clone()
+        except Exception as e:  # noqa: BLE001
+            failures.append(Failure(what=f'helper raised {type(e).__name__}: {e}'[:300], case={'kind': 'conv', 'geom': g, 'bias': hb, 'seed': sd},
+                                    oracle_rejects=True, correspondence=CORRESPONDENCES[0], theorems=THEOREMS,
+                                    oracle='a valid geometry must be accepted'))
+            impl.append(None)
+            continue
         wflat = m.weight.grad.reshape(O, -1).clone()
         bflat = m.bias.grad.clone() if hb else None
         # oracle: outer-product sum from F.unfold patches (pure torch)
@@ -104,9 +111,16 @@ def run(tier, seed, rng):
         margs.append(('conv_grad_matrix', [g, int(hb), nest(got['go']), nest(x)]))
         margs.append(('conv_fwd', [g, nest(m.weight.detach()), nest(impl[-1]['b']), nest(x)]))
     outs = common.run_model_sharded(margs)
-    for k, ((g, hb, sd), im) in enumerate(zip(convs, impl)):
+    k = -1
+    for (g, hb, sd), im in zip(convs, impl):
+        if im is None:
+            continue
+        k += 1
         B, C, H, W, O, kh, kw, sh, sw, ph, pw = g
-        mp = torch.tensor(unhex(outs[3 * k]), dtype=torch.float64).reshape(im['patches'].shape) if im['patches'].numel() else im['patches']
+        try:
+            mp = torch.tensor(unhex(outs[3 * k]), dtype=torch.float64).reshape(im['patches'].shape) if im['patches'].numel() else im['patches']
+        except RuntimeError:
+            mp = torch.zeros(0)
         mg = torch.tensor(unhex(outs[3 * k + 1]), dtype=torch.float64).reshape(im['gm'].shape)
         mo = torch.tensor(unhex(outs[3 * k + 2]), dtype=torch.float64).reshape(im['out'].shape)
         case = {'kind': 'conv', 'geom': g, 'bias': hb, 'seed': sd}
